@@ -37,6 +37,12 @@ def main():
     warnings.filterwarnings("ignore")
     from yadmon import env
 
+    cov = None
+    if os.environ.get("YADMON_COVERAGE_DIR"):  # tools/coverage_map.py: which lines of the package the workloads reach
+        import coverage
+
+        cov = coverage.Coverage(data_file=os.path.join(os.environ["YADMON_COVERAGE_DIR"], ".coverage"), data_suffix=True, source=[str(env.SRC)])
+        cov.start()
     try:
         import yadism
         import yadism.log
@@ -71,6 +77,9 @@ def main():
             }
         out.write(json.dumps(res, default=jsonable) + "\n")
         out.flush()
+    if cov is not None:
+        cov.stop()
+        cov.save()
 
 
 if __name__ == "__main__":
